@@ -268,9 +268,16 @@ fn derivation_checks(rep: &Report, cen: &mut Census) {
                                         bump(cen, "derivations_ok");
                                     }
                                     if idx < 3 {
-                                        match desc.find_derivation_index_for_spk(SECP256K1, &ScriptBuf::from_bytes(spk.clone()), 0..5) {
-                                            Ok(Some((i, _))) if i == idx => bump(cen, "find_index_ok"),
-                                            other => viol("find_derivation_index", format!("expected Some({}) got {:?}", idx, other.map(|o| o.map(|x| x.0)))),
+                                        // every search range [a, b) with 0 <= a <= b <= 5: found with its own
+                                        // index iff the range contains it
+                                        for a in 0u32..=5 {
+                                            for b in a..=5 {
+                                                let want = if a <= idx && idx < b { Some(idx) } else { None };
+                                                match desc.find_derivation_index_for_spk(SECP256K1, &ScriptBuf::from_bytes(spk.clone()), a..b) {
+                                                    Ok(got) if got.as_ref().map(|x| x.0) == want => bump(cen, "find_index_ok"),
+                                                    other => viol("find_derivation_index", format!("range {}..{}: expected {:?} got {:?}", a, b, want, other.map(|o| o.map(|x| x.0)))),
+                                                }
+                                            }
                                         }
                                     }
                                 }
@@ -485,7 +492,7 @@ pub fn run(tier: Tier) -> i32 {
         rep.get("derivations_ok") + rep.get("script_code_signatures_verified") + rep.get("sortedmulti_satisfactions_validated"),
         evals,
         rep.get("derivations_ok").min(rep.get("descriptors")),
-        "every output type x key form x 4 networks and every B term up to the node bound inside sh / wsh / sh-wsh / tr: scriptPubKey, address, explicit_script, script_code, unsigned_script_sig against byte-level references, and a spend signed over script_code() verified on the RSM; xpub key expressions (origin x steps x wildcard) x indices vs independent BIP32 derivation, find_derivation_index_for_spk, documented errors; all key permutations of sortedmulti (n <= 4); multipath split vs textual selection. non-trivial = min(derivations confirmed, descriptors compared)",
+        "every output type x key form x 4 networks and every B term up to the node bound inside sh / wsh / sh-wsh / tr: scriptPubKey, address, explicit_script, script_code, unsigned_script_sig against byte-level references, and a spend signed over script_code() verified on the RSM; xpub key expressions (origin x steps x wildcard) x indices vs independent BIP32 derivation, find_derivation_index_for_spk over every search range [a,b) within 0..5, documented errors; all key permutations of sortedmulti (n <= 4); multipath split vs textual selection. non-trivial = min(derivations confirmed, descriptors compared)",
         true,
     )
 }
